@@ -208,7 +208,7 @@ def rule_progress(ctx):
 
 
 # per-device policy independence; upload constructor and size coercion
-IMPORTS = [('C05', 'C05.KEY'), ('C06', 'C06.CTOR'), ('C06', 'C06.COERCE')]
+IMPORTS = [('C05', 'C05.KEY'), ('C06', 'C06.CTOR'), ('C06', 'C06.COERCE'), ('C19', 'C19.LOCK'), ('C02', 'C02.DECODE')]
 
 RULES = [
     ("C08.CODEC", rule_codec, "matching base64 pair; producers send base64+size+format of one value; consumers decode once and keep that object"),
